@@ -3,6 +3,7 @@ package props
 import (
 	"fmt"
 	"math/rand/v2"
+	"os"
 	"strings"
 
 	"github.com/theory/sqljson/path"
@@ -208,4 +209,53 @@ func deterministicCase(ec *ExecCase, doc any, vars map[string]any) bool {
 		}
 	})
 	return !(hasKV || hasMultiMemberObject(doc) || varsHaveMultiMember(vars))
+}
+
+var harvested []*ExecCase
+var harvestDone bool
+
+// harvestedPaths returns the maintainer-written paths found in the library's
+// own tests and README (those that Parse accepts), as case templates.
+func harvestedPaths() []*ExecCase {
+	if harvestDone {
+		return harvested
+	}
+	harvestDone = true
+	dir := os.Getenv("VERIF_REPO")
+	if dir == "" {
+		dir = "/repo"
+	}
+	for _, txt := range gen.Harvest(dir) {
+		p, err, pan := h.ParseSafe(txt)
+		if err != nil || pan != "" {
+			continue
+		}
+		if len(txt) > 200 {
+			continue
+		}
+		harvested = append(harvested, &ExecCase{Text: txt, P: p, Abs: gen.FromAST(p.AST)})
+	}
+	return harvested
+}
+
+// harvestCase instantiates a harvested path with a random document and options.
+func (eg *ExecGen) harvestCase(i int) *ExecCase {
+	hp := harvestedPaths()
+	if len(hp) == 0 {
+		return eg.Next()
+	}
+	t := hp[i%len(hp)]
+	dc := eg.DC
+	vars := stdVars
+	if eg.Deterministic && exposesOrder(t.Abs) {
+		dc.MaxMembers = 1
+		vars = stdVars1
+	}
+	ec := *t
+	ec.Doc = gen.Doc(eg.R, dc)
+	ec.UseNum = eg.R.IntN(2) == 0
+	ec.Vars = vars
+	ec.Silent = eg.R.IntN(3) == 0
+	ec.TZ = eg.R.IntN(3) == 0
+	return &ec
 }
